@@ -1,7 +1,7 @@
 \* emission (quick): nearly coincident target points (jitter classes), there and back
 CONSTANTS H = 4  SrcPts = {1, 2, 3}  DstPts = {1, 2, 3}  Profiles = {2, 3, 11}  FuelChoices = {3}  SolveProfiles = {}
           Jitters = {"up", "down"}  Ops = {"MakeUniform", "MapBack"}  SnapFlags = {}
-          SnapProfiles = {}  MaxLevel = 5
+          SnapProfiles = {}  MoveProfiles = {}  Geoms = {"cold"}  MaxLevel = 5
 INVARIANT EmitState
 INIT Init
 NEXT Next
